@@ -276,6 +276,7 @@ func tailOf(s string, n int) string {
 // hostile JSON Schema / OpenAPI fragments swapped in for a well-formed node
 var hostileFragments = []string{
 	`{"enum":[null]}`, `{"enum":[]}`, `{"enum":[1,"a"]}`, `{"enum":["a"],"type":"integer"}`, `{"enum":[1.5]}`, `{"enum":[true]}`,
+	`{"type":"string","enum":[1,true]}`, `{"type":"string","enum":[null,1]}`, `{"type":"number","enum":[{"a":1}]}`, `{"type":"string","enum":[["a"]]}`, `{"type":"boolean","enum":[true,false]}`, `{"type":"integer","enum":[1,-1]}`,
 	`{"type":"array"}`, `{"type":"array","items":[{"type":"string"},{"type":"integer"}]}`, `{"type":"array","items":true}`,
 	`{"type":["string","null"]}`, `{"type":["integer","string","null"]}`, `{"type":[]}`, `{"type":"null"}`, `{"type":"whatever"}`, `{"type":5}`,
 	`{"oneOf":[]}`, `{"anyOf":[]}`, `{"allOf":[]}`, `{"allOf":[{"type":"string"}]}`, `{"oneOf":[{"type":"null"}]}`, `{"anyOf":[{"type":"null"},{"type":"null"}]}`,
